@@ -212,7 +212,7 @@ def gen_case(seed, prop, idx):
          "C16": dict(ins=50, read=20, get=8, rm=8, upd=8, drop=1, rmall=1, reidx=3, reopen=1)}[prop]
     n = r.randint(3, 9)
     ops = fam_hist.gen_history(g, n, True, w, 0.03)
-    if prop in ("C04", "C12", "C13", "C16") and idx % 40 == 7:
+    if prop in ("C04", "C12", "C13", "C16") and idx % 40 == 7 and idx < 500:
         # one insert_multiple beyond any batch / chunk threshold, somewhere in the history
         ops.insert(r.randrange(len(ops) + 1), fam_hist.bulk_insert(g, r.randint(1001, 1100)))
     ops = [_no_field_noop(o) for o in ops]
